@@ -2,7 +2,7 @@
 # REAL rewriter and runtime with a recording tracer whose handler activates / deactivates loop-test, loop-body and function guards by
 # rule: the stream (event, node index, value), final bindings, exception type, and the exported trees with guard names canonicalised
 # to (kind, node index).
-#   stdin: list of {"src", "events", "guards": bool, "rules": [[k, on, kind, n], ...]}   (kind: test | body | fun)
+#   stdin: list of {"src", "events", "guards": bool, "rules": [[k, on, kind, n], ...]}   (kind: test | body | fun | fbody)
 import ast
 import json
 import sys
@@ -57,6 +57,14 @@ def run_case(c, ci):
                     idmap[id(n)] = i
                     by_id[id(n)] = i
             gm = dict(scan_loop_guards(out, by_id))
+            for w in ast.walk(out):
+                if isinstance(w, ast.For) and w.body and isinstance(w.body[0], ast.If):
+                    from c10_sem import guard_of
+                    g = guard_of(w.body[0].test)
+                    if g is not None:
+                        n = by_id.get(int(g[len(PFX + "GUARD_"):].split("_")[0]))
+                        if n is not None:
+                            gm[g] = ("fbody", n)
             for g, n in scan_fun_guards(out, by_id).items():
                 gm[g] = ("fun", n)
             for g, key in gm.items():
